@@ -11,6 +11,7 @@ import types
 
 DETAIL = {}
 _count = [0]
+CONCRETE = [False]   # set by the concrete replay / witness run: the arguments are plain Python values (a harness may then confirm a failure through the public API)
 TWIN = [None]   # 'reach': vacuity twin, the contract is negated so that a path reaching `return True` is a counterexample
 
 
